@@ -515,6 +515,11 @@ class AtomicWriter(Generic[IOKindT]):
                 break
             except FileExistsError:
                 pass
+            except Exception:
+                # Some errors (like an unknown encoding) are only detected after the file was created.
+                self._temp_name.unlink(missing_ok=True)
+                self._temp_name = None
+                raise
 
     def __enter__(self) -> IOKindT:
         """Delegate to the underlying temporary file handler."""
